@@ -51,6 +51,7 @@ Inductive case :=
 | CSeq (ms : list (string * nat))
 | CTxt (lines : list string)
 | CPlain (a : alphabet) (lines : list string)
+| CPlainMix (d r a : bool) (lines : list string)
 | CIg (a : alphabet) (circular : bool) (lines : list string)
 | CGen (macros : list (string * (nat * nat * string))) (sequence : list string) (cs : list (nat * nat * nat * nat)) (mods : list (nat * string)).
 Definition run_case (c : case) : option (list string * list (nat * nat * bool)) :=
@@ -58,6 +59,7 @@ Definition run_case (c : case) : option (list string * list (nat * nat * bool)) 
   | CSeq ms => Some (show (from_seq ms))
   | CTxt lines => Some (show (parse_txt lines))
   | CPlain a lines => oshow (parse_plain a lines)
+  | CPlainMix d r a lines => oshow (parse_plain_mix {| k_dna := d; k_rna := r; k_aa := a |} lines)
   | CIg a circ lines => oshow (parse_ig a circ lines)
   | CGen macros sequence cs mods => oshow (gen_seq_graph (map mk_macro macros) sequence (map mk_connect cs) mods)
   end.
@@ -132,6 +134,10 @@ def gen_cases(rng, n):
             lines = break_lines(rng, letters, '')
             circ = kind == 'ig' and rng.random() < 0.5
             cases.append({'kind': kind, 'alpha': alpha, 'letters': letters, 'lines': lines, 'circular': circ})
+            if kind == 'fasta' and alpha == 'AA' and rng.random() < 0.35:
+                # the comment of a protein record that also names a nucleic acid ("... DNA-binding domain PROTEIN"):
+                # letters go through the DNA / RNA table first, then the amino-acid table
+                cases[-1]['with'] = rng.choice(['DNA', 'RNA'])
             if kind == 'fasta' and rng.random() < 0.4:
                 # further records after the first (FASTA of a complex: other chains, possibly of another molecule type);
                 # the residue graph is that of the first record
@@ -184,10 +190,12 @@ def expected(case):
         names = list(case['toks'])
     elif k in ('fasta', 'ig'):
         t = TABLES[case['alpha']]
+        if case.get('with'):
+            t = dict(t, **TABLES[case['with']])
         if any(c not in t for c in case['letters']):
             return 'error'
         names = [t[c] for c in case['letters']]
-        if case['alpha'] != 'AA' and not case['circular']:
+        if (case['alpha'] != 'AA' or case.get('with')) and not case['circular']:
             names[0] += '5'
             names[-1] += '3'
     else:
@@ -212,7 +220,8 @@ def run_impl(case, wd):
         return impl_file(wd, 's.txt', '\n'.join(case['lines']) + '\n')
     if k == 'fasta':
         more = ''.join(f"> {KEYWORD[a]} chain {i + 2}\n{letters}\n" for i, (a, letters) in enumerate(case.get('more_records', [])))
-        return impl_file(wd, 's.fasta', f"> {KEYWORD[case['alpha']]} test\n" + '\n'.join(case['lines']) + '\n' + more)
+        head = f"> {KEYWORD[case['alpha']]} test" if not case.get('with') else f"> lac repressor {case['with']}-binding domain {KEYWORD[case['alpha']]}"
+        return impl_file(wd, 's.fasta', head + '\n' + '\n'.join(case['lines']) + '\n' + more)
     if k == 'ig':
         body = list(case['lines'])
         body[-1] += '2' if case['circular'] else '1'
@@ -235,6 +244,8 @@ def coq_case(case):
         return "CSeq [" + '; '.join(f"({lit(n)}, {c}%nat)" for n, c in case['ms']) + "]"
     if k == 'txt':
         return f"CTxt {lit(case['lines'])}"
+    if k == 'fasta' and case.get('with'):
+        return f"CPlainMix {lit(case['with'] == 'DNA')} {lit(case['with'] == 'RNA')} true {lit(case['lines'])}"
     if k == 'fasta':
         return f"CPlain {case['alpha']} {lit(case['lines'])}"
     if k == 'ig':
@@ -394,6 +405,12 @@ def run(ctx):
               {'kind': 'fasta', 'alpha': 'AA', 'letters': ['G'], 'lines': ['G'], 'circular': False},
               {'kind': 'ig', 'alpha': 'AA', 'letters': list('GAV'), 'lines': ['GA', 'V'], 'circular': True},
               {'kind': 'ig', 'alpha': 'DNA', 'letters': list('ACGT'), 'lines': ['AC', 'GT'], 'circular': True}]
+    # a history in one process: plain records of every kind before and after a record whose comment names PROTEIN
+    # together with a nucleic acid -- the translation of a file depends on that file alone
+    plain = [{'kind': 'fasta', 'alpha': a, 'letters': list(l), 'lines': [l[:3], l[3:]], 'circular': False}
+             for a, l in (('AA', 'GATCMK'), ('DNA', 'GATTAC'), ('RNA', 'GATCAG'))]
+    mixed = [{'kind': 'fasta', 'alpha': 'AA', 'with': w, 'letters': list('MKGATCW'), 'lines': ['MKGA', 'TCW'], 'circular': False} for w in ('DNA', 'RNA')]
+    cases += plain + mixed[:1] + plain + mixed[1:] + plain
     cases += gen_cases(rng, ctx.n(240, 2400))
     exprs, keep = [], []
     with systems.Workdir() as wd:
@@ -411,6 +428,8 @@ def run(ctx):
                 ctx.feature('rejected')
             if case.get('circular'):
                 ctx.feature('circular')
+            if case.get('with'):
+                ctx.feature('protein_keyword_with_' + case['with'])
             if case.get('more_records'):
                 ctx.feature('fasta_with_several_records')
             if exp == 'error':
